@@ -684,6 +684,16 @@ fn to_list(ctx: &Context, top: &Number, list: &[&str]) -> Result<Vec<NumberParts
                 ctx, top, first,
             ))));
         }
+        // `ans` can be a member of the list, and it can be zero.
+        if let Some(zero) = units
+            .iter()
+            .find(|x| x.value == Numeric::zero() || x.value == Numeric::Float(0.0))
+        {
+            return Err(QueryError::generic(format!(
+                "Units in unit list must not be zero: <{}>",
+                zero.show(ctx)
+            )));
+        }
     }
     let mut value = top.value.clone();
     let mut out = vec![];
